@@ -302,15 +302,28 @@ def _check_hash(ctx, tag, loc, inst, fields):
             # equal objects have the same class and equal fields: the hash may
             # be any function of those -- the fields (each compared by
             # __eq__) and constants derived from the class
+            def the_class(x):
+                return x in (("typeof", SELF), ("attr", SELF, "__class__"))
+
             def class_const(x):
-                return x == ("typeof", SELF) or (
-                    x[0] == "attr" and x[1] == ("typeof", SELF)) or (
+                return the_class(x) or (
+                    x[0] == "attr" and the_class(x[1])) or (
                     x[0] == "const" and isinstance(x[1], str))
             arg = rv[2][0] if rv[0] == "call" and rv[1] == "hash" and \
                 len(rv[2]) == 1 else None
-            ok_val = arg is not None and arg[0] == "lit" and arg[1] == "tuple" \
-                and all(x in want_tuple[2] or class_const(x) for x in arg[2]) \
-                and (not fields or any(x in want_tuple[2] for x in arg[2]))
+            items = None
+            if arg is not None and arg[0] == "lit" and arg[1] == "tuple":
+                # (name, *(<fields>)) is the tuple (name, <fields>...)
+                items = []
+                for x in arg[2]:
+                    if x[0] == "star" and x[1][0] == "lit" and \
+                            x[1][1] == "tuple":
+                        items += list(x[1][2])
+                    else:
+                        items.append(x)
+            ok_val = items is not None \
+                and all(x in want_tuple[2] or class_const(x) for x in items) \
+                and (not fields or any(x in want_tuple[2] for x in items))
             saw.add("fields")
         ok_w = len(writes) == 1 and writes[0].args[0] == SELF and \
             writes[0].args[1] == ("const", "_hash_value") and \
